@@ -521,3 +521,46 @@ fn c20_reset_id_keeps_the_statistics() {
     assert!(t.size() == 0);
     core::mem::forget(t);
 }
+
+// =============================================================================================
+// C11: RoutingTable::closest offers EVERY node of the table to the accumulator (whose order and
+// per-IP rule are C11's other obligations) — also when the target's own bucket is full
+// =============================================================================================
+static mut ACC_CALLS: u32 = 0;
+static mut ACC_OTHER_BUCKET_SEEN: bool = false;
+fn stub_acc_add(_c: &mut ClosestNodes, node: Node) {
+    unsafe {
+        ACC_CALLS += 1;
+        if node.id().as_bytes()[0] == 0x40 {
+            ACC_OTHER_BUCKET_SEEN = true;
+        }
+    }
+    core::mem::forget(node);
+}
+
+#[kani::proof]
+#[kani::unwind(23)]
+#[kani::stub(std::time::Instant::now, clock::mock_now)]
+#[kani::stub(std::time::Instant::elapsed, clock::mock_elapsed)]
+#[kani::stub(ClosestNodes::add, stub_acc_add)]
+fn c11_closest_considers_every_node_of_the_table() {
+    let mut t = RoutingTable::new(idb(0, 0, 0));
+    slab!(full, 20);
+    slab!(other, 2);
+    let mut i = 0usize;
+    while i < 20 {
+        full[i].write(node_aged(idb(0x80, i as u8, 0), addr(i as u8, 7000), 1_000));
+        i += 1;
+    }
+    t.buckets.insert(160, KBucket { nodes: unsafe { Vec::from_raw_parts(full.as_mut_ptr() as *mut Node, 20, 20) } });
+    let nb = stack_nodes!(other, 2, [node_aged(idb(0x40, 1, 0), addr(99, 7000), 1_000)]);
+    t.buckets.insert(159, KBucket { nodes: nb });
+    // a target that falls into the FULL bucket, and one that falls into the other bucket
+    let target = if kani::any() { idb(0x80, 5, 1) } else { idb(0x40, 7, 0) };
+    let r = t.closest(target);
+    assert!(unsafe { ACC_CALLS } == 21 && unsafe { ACC_OTHER_BUCKET_SEEN },
+        "C11: the closest nodes are selected among ALL nodes of the table (a node in another bucket may be closer than members of the target's own bucket)");
+    assert!(r.len() <= MAX_BUCKET_SIZE_K, "C11: at most 20 nodes are returned");
+    core::mem::forget(r);
+    core::mem::forget(t);
+}
